@@ -186,6 +186,7 @@ def parseReq (toks : List String) : Option Req :=
   match toks with
   | m :: target :: hs =>
     let path := target.toList.takeWhile (· != '?')
+    if path.head? != some '/' then none else
     some { method := m, path := requote path, headers := (hs.filter fun h => !h.startsWith "exp=").filterMap parseHeader }
   | _ => none
 
